@@ -3,7 +3,7 @@ THEOREMS_TIED = ["Rustic.Props.C07.uploaded_exactly_added", "Rustic.Props.C07.re
                  "Rustic.Props.C07.added_blobs_are_not_indexed", "Rustic.Props.C07.full_backup_adds_every_new_chunk",
                  "Rustic.Props.C07.edit_reuploads_only_disturbed_chunks", "Rustic.Props.C07.tree_and_data_with_equal_id_both_stored",
                  "Rustic.Props.C07.settled_blob_is_never_stored_again", "Rustic.Props.C07.indexed_never_shrinks",
-                 "Rustic.Props.C07.full_backup_adds_are_content_chunks", "Rustic.Props.C07.chunks_independent_of_recorded_size",
+                 "Rustic.Props.C07.full_backup_adds_are_content_chunks", "Rustic.Props.C07.chunks_independent_of_recorded_size", "Rustic.Props.C07.archive_succeeds_whatever_the_recorded_sizes",
                  "Rustic.Props.C07.stored_content_adds_nothing_whatever_the_node",
                  "Rustic.Props.C07.reload_with_unreadable_index_file_fails", "Rustic.Props.C07.reloaded_index_has_every_listed_blob"]
 
